@@ -256,6 +256,36 @@ let () =
          | _ -> print_endline "noroots");
         print_endline "END";
         flush stdout
+      | ["seq3reads"; cmpid; name; nops; hexfile] ->
+        (* as seq2reads, with Store.Flush inside the run; the last line is length + MD5 of the predicted file *)
+        let f = bytes_of_hex hexfile in
+        let name = bytes_of_hex name in
+        let nops = int_of_string nops in
+        let ops = List.init nops (fun _ ->
+          match String.split_on_char ' ' (input_line stdin) with
+          | ["get"; k; wv] -> S2 (S1 (SGet (bytes_of_hex k, wv = "t")))
+          | ["min"; wv] -> S2 (S1 (SMin (wv = "t")))
+          | ["max"; wv] -> S2 (S1 (SMax (wv = "t")))
+          | ["set"; k; v; prio] -> S2 (S1 (SSet (bytes_of_hex k, bytes_of_hex v, z_of_int (int_of_string prio))))
+          | ["del"; k] -> S2 (S1 (SDel (bytes_of_hex k)))
+          | ["vis"; dir; k; wv; b] -> S2 (SVis (dir = "asc", bytes_of_hex k, wv = "t", nat_of_int (int_of_string b)))
+          | ["len"] -> S2 SLen
+          | ["tot"] -> S2 STot
+          | ["flush"] -> SFlush
+          | _ -> raise (Unsupported "seq3reads op")) in
+        let show rs = String.concat " " ("r" :: List.map (fun (Rd (o, n)) -> Printf.sprintf "%d:%d" (int_of_z o) (int_of_z n)) rs) in
+        (match decode_store f with
+         | OpOk (e, cs) when int_of_z e = List.length f && List.exists (fun (n, _) -> n = name) cs ->
+           (match seq3_reads_file (cmp_of (nat_of_int (int_of_string cmpid))) f name ops with
+            | Some (rss, f') ->
+              List.iter (fun rs -> print_endline (show rs)) rss;
+              let b = Bytes.create (List.length f') in
+              List.iteri (fun i x -> Bytes.set b i (Char.chr (int_of_n x))) f';
+              print_endline ("file " ^ string_of_int (Bytes.length b) ^ " " ^ Digest.to_hex (Digest.bytes b))
+            | None -> print_endline "undecodable")
+         | _ -> print_endline "unsupported");
+        print_endline "END";
+        flush stdout
       | ["openreads"; hexfile] ->
         let rs = open_reads (bytes_of_hex hexfile) in
         print_endline (String.concat " " ("r" :: List.map (fun (Rd (o, n)) -> Printf.sprintf "%d:%d" (int_of_z o) (int_of_z n)) rs));
